@@ -673,6 +673,14 @@ pub fn generated(with_poll_only: bool) -> Vec<Scenario> {
             s.push(Ev::Mine(MineSel::Txs(vec![TxName::D(1)])));
             s
         }),
+        // polls that deliver more than one event: a two-block catch-up, a reorg two blocks deep
+        ("watched+dispute-block-and-another", cfg, vec![Ev::Register(1), add(1, 1, Blob::Valid), Ev::Mine(MineSel::Txs(vec![TxName::D(1)])), Ev::Mine(MineSel::Empty)]),
+        ("tracker-confirmed+reorg-two-deep", cfg, {
+            let mut s = crate::checks_t::seed("S4");
+            s.push(Ev::MineP(MineSel::Empty));
+            s.push(Ev::Reorg { depth: 2, how: Replacement::Unconfirm });
+            s
+        }),
         ("stale-tracker+rebroadcasting-block", cfg, {
             let mut s = crate::checks_t::seed("S6");
             s.push(Ev::Mine(MineSel::Empty));
@@ -1015,7 +1023,7 @@ fn run_s(prop: &'static str, tier: Tier) -> i32 {
     total_out += gen_out;
     run.set(
         "generated_family",
-        json!({"what": "every pair of operations of the alphabet (chain event, registration of an old / a new user, five submissions, two reads) next to each other from every one of nine prepared states with a pending chain event; quick tier: one pre-emption, thorough: two",
+        json!({"what": "every pair of operations of the alphabet (chain event, registration of an old / a new user, five submissions, two reads) next to each other from every one of eleven prepared states with a pending chain event; quick tier: one pre-emption, thorough: two",
             "scenarios": gens.len(), "preemption_bound": gen_bound, "scenarios_completed_at_that_bound": gen_complete, "schedules": gen_sched,
             "scenarios_with_more_than_one_outcome": gen_multi, "wall_s": gen_started.elapsed().as_secs_f64(),
             "per_scenario_[name,schedules,distinct_outcomes,sequential_outcomes,bound_completed]": gen_detail}),
